@@ -52,6 +52,8 @@ pub fn run(ctx: &Ctx) {
     // every JSON-unambiguous composition W1<W2<L>> (generated lists: 140 types; 441 with the cargo
     // feature `composed-types` that the thorough tier builds with)
     crate::composed_types_c17!(dom_all!(ctx, n;));
+    chk::<EDisc>(ctx, "EDisc(explicit discriminants)", vec![EDisc::Reset, EDisc::Read, EDisc::Write, EDisc::Last], &mut n);
+    chk::<EDiscPayload>(ctx, "EDiscPayload(explicit discriminants)", vec![EDiscPayload::Data(7), EDiscPayload::Idle, EDiscPayload::Named { x: 300 }, EDiscPayload::Pair(1, true)], &mut n);
     chk::<SUnit>(ctx, "SUnit", vec![SUnit], &mut n);
     chk::<SNew>(ctx, "SNew", i16::dom().into_iter().map(SNew).collect(), &mut n);
     chk::<STup>(ctx, "STup", <(u8, i64, String)>::dom().into_iter().map(|(a, b, c)| STup(a, b, c)).collect(), &mut n);
